@@ -40,32 +40,26 @@ def intersectsPt (h : Px) (x y : Int) : Bool :=
 def orientIdx (p1x p1y p2x p2y qx qy : Int) : Int :=
   ((p2x - p1x) * (qy - p2y) - (p2y - p1y) * (qx - p2x)).sign
 
-/-- `HotPixel::intersectsScaled` -/
-def intersectsScaled (h : Px) (p0x p0y p1x p1y : Int) : Bool :=
-  -- determine oriented segment pointing in positive X direction
-  let sw := decide (p1x < p0x)
-  let px := if sw then p1x else p0x
-  let py := if sw then p1y else p0y
-  let qx := if sw then p0x else p1x
-  let qy := if sw then p0y else p1y
+/-- the body of `HotPixel::intersectsScaled` after the endpoints have been ordered so that `px ≤ qx` -/
+def intersectsOriented (h : Px) (px py qx qy : Int) : Bool :=
   -- segment envelope vs pixel envelope (Top and Right sides are open)
-  if h.maxx ≤ min px qx then false
-  else if max px qx < h.minx then false
-  else if h.maxy ≤ min py qy then false
-  else if max py qy < h.miny then false
-  -- vertical or horizontal segments
+  if h.maxx ≤ min px qx then false          -- check Right side
+  else if max px qx < h.minx then false     -- check Left side
+  else if h.maxy ≤ min py qy then false     -- check Top side
+  else if max py qy < h.miny then false     -- check Bottom side
+  -- vertical or horizontal segments must now intersect the segment interior or Left or Bottom sides
   else if px = qx then true
   else if py = qy then true
   else
     let orientUL := orientIdx px py qx qy h.minx h.maxy
-    if orientUL = 0 then (if py < qy then false else true)
+    if orientUL = 0 then (if py < qy then false else true)      -- upward segment does not intersect pixel interior
     else
       let orientUR := orientIdx px py qx qy h.maxx h.maxy
-      if orientUR = 0 then (if qy < py then false else true)
+      if orientUR = 0 then (if qy < py then false else true)    -- downward segment does not intersect pixel interior
       else if orientUL ≠ orientUR then true        -- crossing Top side
       else
         let orientLL := orientIdx px py qx qy h.minx h.miny
-        if orientLL = 0 then true                  -- LL corner is in the pixel
+        if orientLL = 0 then true                  -- LL corner is the only one in pixel interior
         else if orientLL ≠ orientUL then true      -- crossing Left side
         else
           let orientLR := orientIdx px py qx qy h.maxx h.miny
@@ -73,5 +67,10 @@ def intersectsScaled (h : Px) (p0x p0y p1x p1y : Int) : Bool :=
           else if orientLL ≠ orientLR then true    -- crossing Bottom side
           else if orientLR ≠ orientUR then true    -- crossing Right side
           else false
+
+/-- `HotPixel::intersectsScaled`: orient the segment in positive X direction (`if (px > qx) swap`), then test -/
+def intersectsScaled (h : Px) (p0x p0y p1x p1y : Int) : Bool :=
+  if p1x < p0x then intersectsOriented h p1x p1y p0x p0y
+  else intersectsOriented h p0x p0y p1x p1y
 
 end GeosModel.Precision
